@@ -152,7 +152,7 @@ func rtPhases(which string, unpriv bool) []*fw.Phase {
 	}
 	random := &fw.Phase{
 		Name: "random-trees" + suffix, Chroot: true, Unpriv: unpriv,
-		N: fw.Fixed(1500, 30000),
+		N: fw.Fixed(5000, 40000),
 		Run: func(env *fw.Env, idx int) fw.Result {
 			r := env.Rand(idx)
 			t := gen.RandomTree(r, gen.TreeOpts{MaxNodes: 40, MaxDepth: 6, OddNames: r.Chance(1, 2), Unpriv: unpriv, Links: true, Special: r.Chance(1, 5), BigFiles: r.Chance(1, 20), Ignorables: r.Chance(1, 4)})
